@@ -1,6 +1,7 @@
 package introspection
 
 import (
+	"bytes"
 	"encoding/json"
 	"fmt"
 	"io"
@@ -267,10 +268,28 @@ func (j *JsonConverter) importDefaultValue(defaultValue *string) (out ast.Defaul
 	}, nil
 }
 
+// escapedStringContent returns s as the content of a single-line string literal: quotes,
+// backslashes and control characters are written as escape sequences.
+func escapedStringContent(s string) []byte {
+	buf := &bytes.Buffer{}
+	encoder := json.NewEncoder(buf)
+	encoder.SetEscapeHTML(false)
+	if err := encoder.Encode(s); err != nil {
+		return []byte(s)
+	}
+	quoted := bytes.TrimSuffix(buf.Bytes(), []byte("\n"))
+	return quoted[1 : len(quoted)-1]
+}
+
 func (j *JsonConverter) importDeprecatedDirective(reason *string) (ref int) {
 	var args []int
 	if reason != nil {
-		valueRef := j.doc.ImportStringValue([]byte(*reason), strings.Contains(*reason, "\n"))
+		isBlockString := strings.Contains(*reason, "\n")
+		content := []byte(*reason)
+		if !isBlockString && strings.ContainsAny(*reason, "\"\\") {
+			content = escapedStringContent(*reason)
+		}
+		valueRef := j.doc.ImportStringValue(content, isBlockString)
 		value := ast.Value{
 			Kind: ast.ValueKindString,
 			Ref:  valueRef,
